@@ -148,6 +148,9 @@ class Gen(object):
         if r < 0.25:
             c = self.gen_q(model, depth + 1, allow_xor)
             return {'q': 'not', 'c': c}
+        if r < 0.32 and self.cfg.get('q_wrap'):
+            c = self.gen_q(model, depth + 1, allow_xor)
+            return {'q': 'wrap', 'c': c}
         ops = ['and', 'or']
         if allow_xor and self.cfg.get('xor'):
             ops.append('xor')
@@ -967,7 +970,7 @@ def _constraint_ok(m, c, trows):
 def _has_xor(q):
     if q['q'] == 'leaf':
         return False
-    if q['q'] == 'not':
+    if q['q'] in ('not', 'wrap'):
         return _has_xor(q['c'])
     return q['q'] == 'xor' or any(_has_xor(c) for c in q['c'])
 
@@ -1005,6 +1008,8 @@ def q_eval(m, q, row):
     if t == 'not':
         x = q_eval(m, q['c'], row)
         return None if x is None else (not x)
+    if t == 'wrap':
+        return q_eval(m, q['c'], row)
     vals = [q_eval(m, c, row) for c in q['c']]
     if t == 'and':
         if any(x is False for x in vals):
